@@ -335,7 +335,8 @@ theorem c02_stored_rows_on_every_store (ops : List WOp) :
 /-- **C02 (a subtree the upstream instance does not have yet arrives whole).** The catch-up pass meets a local node
 that upstream lacks — the node itself (`syncNode`, nothing returned upstream) or a child (`syncChildren`, no upstream child
 of that id) — and calls `sendNodesRemote` for it: `SendNode` for the node, then, recursively, for every child the local
-store lists as not deleted. Let the local store be a forest of stored rows with ordinary ids (`SrcOk`), `e` the local edge
+store lists as not deleted. Let the local store be a forest whose live subtree below `e` consists of stored rows under ordinary ids (`SrcOk`; nothing is
+asked of the rest of the store), `e` the local edge
 sent below `P` (its own parent, or the upstream root for a root device), `P` not inside the subtree, and let the upstream store
 know none of the ids of the live subtree below `e` (`Fresh`: no edge, no point). Then with the budget in use (2^|edges| + 1,
 which `belowD_depth` shows to exceed every depth of a forest): nothing fails, the local store is untouched, EVERY node of
@@ -344,7 +345,7 @@ edge points (plus the mark "not deleted", stamped with a reading of the upstream
 deletion mark), and nothing else upstream changes. So after the transfer the two copies of the subtree agree point for
 point; together with `c02_pass_converges_where_hash_is_faithful` (equal trees) this covers both cases the pass
 distinguishes. Not covered: ids already known upstream somewhere else (mirrors, moved nodes). -/
-theorem c02_missing_subtree_is_sent (wall : Int → Int) (s : Pair) (hs : SrcOk s.a) (e : Edge) (P : Bytes) (he : e ∈ s.a.edges)
+theorem c02_missing_subtree_is_sent (wall : Int → Int) (s : Pair) (e : Edge) (hs : SrcOk s.a e.down) (P : Bytes) (he : e ∈ s.a.edges)
     (hP1 : P ≠ []) (hP2 : P ≠ noneS) (hP3 : P ≠ rootS) (hPb : ¬ Below (liveK s.a) e.down P)
     (hfresh : ∀ m, Below (liveK s.a) e.down m → Fresh s.b m) :
     (toRemote wall s { neOf s.a e with parent := P }).a = s.a ∧
@@ -353,7 +354,7 @@ theorem c02_missing_subtree_is_sent (wall : Int → Int) (s : Pair) (hs : SrcOk 
     (∀ c ∈ liveEdges s.a, Below (liveK s.a) e.down c.up →
       ∃ k, eptsOf (toRemote wall s { neOf s.a e with parent := P }).b c.up c.down = sentE (eptsOf s.a c.up c.down) (wall k)) ∧
     (∀ y, ¬ Below (liveK s.a) e.down y → Same s.b (toRemote wall s { neOf s.a e with parent := P }).b y) :=
-  toRemote_sent wall s hs e P he hP1 hP2 hP3 hPb hfresh
+  toRemote_sent wall s e hs P he hP1 hP2 hP3 hPb hfresh
 
 /-- **C02 (a subtree missing DOWNSTREAM arrives one level per pass — as the code is).** `sendNodesLocal` sends the upstream
 node to the local store and then lists the children of that id in the LOCAL store (`GetNodes(up.nc, …)`, pinned by
@@ -381,7 +382,7 @@ that the upstream store has no edge into IS the transfer of `c02_missing_subtree
 finds the node locally, finds nothing upstream, and calls `sendNodesRemote`. With the premises of that theorem (here with
 `P` the node's own parent) the conclusions hold for the state the pass returns: the whole live subtree is upstream with the
 local rows, the local store untouched, nothing else changed. -/
-theorem c02_pass_sends_a_node_missing_upstream (wall : Int → Int) (fuel : Nat) (s : Pair) (hs : SrcOk s.a) (e : Edge) (he : e ∈ s.a.edges)
+theorem c02_pass_sends_a_node_missing_upstream (wall : Int → Int) (fuel : Nat) (s : Pair) (e : Edge) (hs : SrcOk s.a e.down) (he : e ∈ s.a.edges)
     (hp1 : e.up ≠ rootS) (hp2 : e.up ≠ allS) (hP1 : e.up ≠ []) (hP2 : e.up ≠ noneS) (hPb : ¬ Below (liveK s.a) e.down e.up)
     (hfresh : ∀ m, Below (liveK s.a) e.down m → Fresh s.b m) :
     (syncNode wall (fuel + 1) s e.up e.down).a = s.a ∧
@@ -390,8 +391,8 @@ theorem c02_pass_sends_a_node_missing_upstream (wall : Int → Int) (fuel : Nat)
     (∀ c ∈ liveEdges s.a, Below (liveK s.a) e.down c.up →
       ∃ k, eptsOf (syncNode wall (fuel + 1) s e.up e.down).b c.up c.down = sentE (eptsOf s.a c.up c.down) (wall k)) ∧
     (∀ y, ¬ Below (liveK s.a) e.down y → Same s.b (syncNode wall (fuel + 1) s e.up e.down).b y) := by
-  rw [syncNode_missing wall fuel s hs e he hp1 hp2 (hfresh e.down (Below.refl _ _))]
-  exact toRemote_sent wall s hs e e.up he hP1 hP2 hp1 hPb hfresh
+  rw [syncNode_missing wall fuel s e hs he hp1 hp2 (hfresh e.down (Below.refl _ _))]
+  exact toRemote_sent wall s e hs e.up he hP1 hP2 hp1 hPb hfresh
 
 /-- the child case of `syncChildren` is the instance `P = e.up` (the record sent is the one `getNodes` returned) -/
 example (s : Pair) (e : Edge) : ({ neOf s.a e with parent := e.up } : NE) = neOf s.a e := rfl
@@ -406,7 +407,7 @@ example :
       edgePts := [(([82], [97]), tomb), (([97], [98]), tomb)]
       root := [82] }
     let dst : St := { root := [120] }
-    SrcOk src ∧ (⟨[82], [97], [100], 0⟩ : Edge) ∈ src.edges ∧ ¬ Below (liveK src) [97] [120] ∧
+    SrcOk src [97] ∧ (⟨[82], [97], [100], 0⟩ : Edge) ∈ src.edges ∧ ¬ Below (liveK src) [97] [120] ∧
       ∀ m, Below (liveK src) [97] m → Fresh dst m := by
   intro tomb src dst
   have hK : liveK src = [([82], [97], [100]), ([97], [98], [100])] := by decide
@@ -425,12 +426,12 @@ example :
   · intro k hk
     have : k = ([82], [97], [100]) ∨ k = ([97], [98], [100]) := by simpa [shapes, src, shape] using hk
     rcases this with rfl | rfl <;> decide
-  · intro f hf
+  · intro f hf _
     have : f = ⟨[82], [97], [100], 0⟩ ∨ f = ⟨[97], [98], [100], 0⟩ := by simpa [src] using hf
     rcases this with rfl | rfl
     · exact ⟨⟨by unfold StoredRows; decide, by unfold IdUnique; decide, by decide⟩, ⟨by unfold StoredRows; decide, by unfold IdUnique; decide, by decide⟩, by decide, by decide⟩
     · exact ⟨⟨by unfold StoredRows; decide, by unfold IdUnique; decide, by decide⟩, ⟨by unfold StoredRows; decide, by unfold IdUnique; decide, by decide⟩, by decide, by decide⟩
-  · intro f hf
+  · intro f hf _
     have : f = ⟨[82], [97], [100], 0⟩ ∨ f = ⟨[97], [98], [100], 0⟩ := by simpa [src] using hf
     rcases this with rfl | rfl <;> decide
   · intro h
